@@ -19,7 +19,7 @@ TECHNIQUE = (
 )
 LEVEL_TEXT = (
     "All populations of 0..N devices (N=2 quick, 3 thorough) over address in {target, A, B} x programming mode x connection-oriented behaviour in "
-    "{answer, refuse, silent} (up to 2 devices also over the faulty variants T_NAK, wrong T_ACK number, other service, ack only, late answer, wrong-numbered answer), each with bus latencies {same instant, 20 ms staggered, spread over 0.5..2.5 s}; serial-number read/write on all populations of <= N devices "
+    "{answer, refuse, silent} (up to 2 devices also over the faulty variants T_NAK, wrong T_ACK number, other service, ack only, late answer, wrong-numbered answer), each with bus latencies {same instant, 20 ms staggered, spread over 0.5..2.5 s} and, for answer/refuse/silent populations, answers delivered BEFORE the L_Data.con of the request (all devices, or only the first with the others 50 ms later; confirmation in the same call, one loop turn or 10 ms later); serial-number read/write on all populations of <= N devices "
     "over serial in {wanted, other} x chatty x address; dmp_authorize2_r_co on all 256 level pairs. Bounded exhaustive enumeration, hence fault_enumeration."
 )
 LEVEL_NOTE = (
@@ -42,6 +42,8 @@ CO_FAULTY = ("nak", "ack_wrong_number", "other_service", "ack_only", "late", "wr
 #: holders whose address probe ends in the procedure's timeout (no A_DeviceDescriptor_Response / T_Disconnect in time)
 PROBE_TIMES_OUT = ("silent", "ack_only", "late", "wrong_number_answer")
 LATENCIES = (0.0, 0.02, "spread")  # spread: device i answers after 0.5 + i s, inside the 3 s the procedures wait
+#: answers delivered before the confirmation of the request (a TCP tunnel hands both over in one chunk), all devices or only the first
+EARLY_MODES = tuple(f"{who}/{con}" for who in ("early", "mixed") for con in ("ok", "soon", "0.01"))
 SERIAL = bytes.fromhex("00fa12345678")
 OTHER_SERIAL = bytes.fromhex("00fa0000beef")
 
@@ -49,7 +51,16 @@ OTHER_SERIAL = bytes.fromhex("00fa0000beef")
 def _run(loop, coro_fn, devices, latency):
     xknx = XKNX()
     link = CemiLink(xknx, loop)
-    bus = SimBus(link, devices, latency=0.5, stagger=1.0) if latency == "spread" else SimBus(link, devices, latency=latency)
+    if latency == "spread":
+        bus = SimBus(link, devices, latency=0.5, stagger=1.0)
+    elif isinstance(latency, str):
+        # "early/<con>": every device answers before the L_Data.con of the request reaches xknx; "mixed/<con>": only device 0 does,
+        # the others answer 50 ms later; <con> = ok (same call) | soon (one loop turn) | seconds
+        who, con = latency.split("/")
+        con = con if con in ("ok", "soon") else float(con)
+        bus = SimBus(link, devices, latency=0.05, con=con, early=(lambda d: True) if who == "early" else (lambda d: d.index == 0))
+    else:
+        bus = SimBus(link, devices, latency=latency)
     out = {"harness": None}
 
     async def main():
@@ -76,6 +87,8 @@ def _run(loop, coro_fn, devices, latency):
     loop.finish()
     asyncio.set_event_loop(None)
     out.update(bus=bus, link=link)
+    out["early_answers"] = sum(1 for e in link.log if e[0] == "rx" and e[1].get("early"))
+    out["early_broadcast_answers"] = sum(1 for e in link.log if e[0] == "rx" and e[1].get("early") and e[1]["tpci"] == "TDataBroadcast")
     return out
 
 
@@ -109,6 +122,9 @@ def address_write_case(ctx, case):
         ctx.violation(f"address-write-does-not-terminate-{out['harness']}", _pop_witness(case, out), "nm_individual_address_write did not finish on the virtual clock")
         return out
     ctx.count(f"write_procedure_{out['outcome'].split(':')[0]}")
+    if out["early_answers"]:
+        ctx.count("answers_delivered_before_confirmation", out["early_answers"])
+        ctx.count("programming_mode_answers_before_confirmation", out["early_broadcast_answers"])
     if out["outcome"].startswith("other:"):
         ctx.count("procedure_raised_other_than_management_error")
     if out["link"].rx_exceptions:
@@ -192,6 +208,8 @@ def serial_case(ctx, case):
             ctx.violation(f"serial-{op}-does-not-terminate", w(), f"serial number {op} did not finish")
             continue
         ctx.count(f"serial_{op}_{out['outcome'].split(':')[0]}")
+        if out["early_broadcast_answers"]:
+            ctx.count("serial_answers_before_confirmation", out["early_broadcast_answers"])
         mine = [d for d in out["bus"].devices if d.serial == SERIAL]
         others_answering = [d for d in out["bus"].devices if d.serial != SERIAL and d.chatty]
         if others_answering:
@@ -275,7 +293,8 @@ def run(ctx):
     )
     ctx.require("address_write_broadcasts", "address_write_justified", "no_address_write", "restart_to_target", "write_procedure_success",
                 "serial_read_address_ok", "serial_read_none_ok", "serial_write_verified_ok", "serial_write_failed",
-                "serial_cases_with_foreign_responses", "authorize_pairs",
+                "serial_cases_with_foreign_responses", "authorize_pairs", "answers_delivered_before_confirmation",
+                "programming_mode_answers_before_confirmation", "serial_answers_before_confirmation",
                 *(f"target_address_held_by_{co}_device" for co in CO + CO_FAULTY))
     n = 0
     one = list(itertools.product(ADDRS, (0, 1), CO))
@@ -287,7 +306,8 @@ def run(ctx):
             pops.append(pop)
     if True:
         for pop in pops:
-            for lat in LATENCIES:
+            base_only = all(d[2] in CO for d in pop)
+            for lat in LATENCIES + (EARLY_MODES if base_only else ()):
                 n += 1
                 if not ctx.mine(n):
                     continue
@@ -304,7 +324,7 @@ def run(ctx):
         for pop in itertools.product(sone, repeat=k):
             if sum(1 for d in pop if d[1]) > 1:
                 continue  # serial numbers are unique
-            for lat in LATENCIES[:2]:
+            for lat in LATENCIES[:2] + EARLY_MODES:
                 m += 1
                 n += 1
                 if not ctx.mine(n):
